@@ -417,6 +417,8 @@ var encodeJournalName = strings.NewReplacer("%", "%25", ".", "%2E", "/", "%2F")
 
 func (self *Fork) updateId(id ForkId) {
 	self.forkId = id
+	// The metadata objects are replaced below.
+	self.metadatasCache = nil
 	if idx, err := id.ForkIdString(); err != nil {
 		panic(err)
 	} else {
